@@ -1517,3 +1517,47 @@ Proof.
   - intros j. destruct j as [|[|j]]; cbn; constructor.
   - intros j n. destruct j as [|[|j]]; cbn; tauto.
 Qed.
+
+(* ------------------------------------------------------------------ the sending side under redial *)
+
+Lemma reentries_false pre gc n : reentries false pre gc n = [].
+Proof. induction n as [|n IH]; cbn; [reflexivity | exact IH]. Qed.
+
+Lemma send_retries_invisible pre post gc n final :
+  send_flow false pre post gc n final = send_flow false pre post gc 0 final.
+Proof. unfold send_flow. rewrite reentries_false. reflexivity. Qed.
+
+Lemma send_prewrite_once pre post gc n final :
+  let r := send_flow false pre post gc n final in
+  (sd_plan r = [(pre, gc)] \/ sd_plan r = [(pre, gc); (post, gc)]) /\
+  (pre <> post -> NoDup (map p_name gc) -> NoDup (trace_of (sd_plan r))) /\
+  (sd_written r = true <-> vetoes pre gc = false /\ final = WOk).
+Proof.
+  cbn zeta. unfold send_flow. rewrite reentries_false.
+  destruct (vetoes pre gc), final; cbn [sd_plan sd_written app]; (split; [auto|]); (split; [|intuition congruence]);
+    intros Hne Hn; apply trace_nodup;
+    try (repeat constructor; cbn; intuition congruence);
+    intros s c Hin; cbn in Hin; intuition (try congruence); inversion H; subst; assumption.
+Qed.
+
+Lemma send_matches_exchange gc gs h n :
+  sd_plan (send_flow false PreWritePush PostWritePush gc n WOk) = r_cli (exchange_push gc gs h) /\
+  sd_status (send_flow false PreWritePush PostWritePush gc n WOk) = r_status (exchange_push gc gs h) /\
+  exists rest, r_cli (exchange_call gc gs h) =
+               sd_plan (send_flow false PreWriteCall PostWriteCall gc n WOk) ++ rest.
+Proof.
+  unfold send_flow, exchange_push, exchange_call. rewrite !reentries_false. cbn [app].
+  destruct (vetoes PreWritePush gc); cbn; (split; [reflexivity|]); (split; [reflexivity|]);
+    destruct (vetoes PreWriteCall gc); cbn; try (exists []; reflexivity);
+    destruct (sr_out (srv_call gs h)); cbn;
+    repeat match goal with |- context [if ?b then _ else _] => destruct b end; cbn; eexists; reflexivity.
+Qed.
+
+Lemma send_reenter_refuted :
+  exists gc n, NoDup (map p_name gc) /\
+    ~ NoDup (trace_of (sd_plan (send_flow true PreWritePush PostWritePush gc n WOk))) /\
+    ~ NoDup (trace_of (sd_plan (send_flow true PreWriteCall PostWriteCall gc n WOk))).
+Proof.
+  exists [plug 1], 1. split; [repeat constructor; intros []|].
+  split; vm_compute; intros H; inversion H as [|? ? Hni _]; apply Hni; left; reflexivity.
+Qed.
